@@ -110,6 +110,11 @@ class MemImmutable(imm_mod.ShareFile):
     def __init__(self, leases, size):
         self.home = "share-imm"
         self.leases = list(leases)
+        # what the real constructor caches when the container is opened (never updated afterwards)
+        self._num_leases = len(self.leases)
+        self._lease_offset = 0xc + size
+        self._length = size
+        self._data_offset = 0xc
         self.deleted = False
         self.size = size
         self.cancel_calls = []
@@ -681,4 +686,91 @@ def h_config_policy(en: int, md: int, ov: bool, cd: bool, imm: int, mut: int, ov
         return "share deleted although expire.enabled is off / type not selected / lease not expired under the configured policy"
     if enabled and selected and must and not sf.deleted:
         return "expired share survived although expiration is enabled for its type"
+    return True
+
+
+# ---- expire.cutoff_date means midnight UTC at the beginning of that day, whatever the time zone of the process ------------
+
+_TZS = ["UTC0", "PST8PDT", "XXX8", "JST-9", "IST-5:30", "NZX-13"]     # POSIX TZ strings (no tzdata needed)
+CUTOFF_DAY = "2009-01-16"
+CUTOFF_UTC = 1232064000          # 2009-01-16T00:00:00Z  (docs/garbage-collection.rst: "midnight UTC at the beginning of the given day")
+
+
+def h_cutoff_date_tz(tz: int, now: int, d1: int, e1: int, mutable: bool) -> bool:
+    """
+    pre: 0 <= tz < len(_TZS)
+    pre: e1 >= D31 and now >= 0 and d1 >= 0
+    post: _ == True
+    """
+    import os
+    import time as real_time
+    client_mod, node_mod, server_mod = _load_client_side()
+    real_parse_date = client_mod.parse_date
+    cfg = _UntracedConfig(client_mod, "[storage]\nenabled = true\nexpire.enabled = true\nexpire.mode = cutoff-date\n"
+                                      "expire.cutoff_date = %s\n" % CUTOFF_DAY)
+
+    def parse_date(s):
+        # the real allmydata.util.time_format.parse_date on the concrete string, with the process time zone set; tracing off
+        from crosshair import NoTracing
+        with NoTracing():
+            old = os.environ.get("TZ")
+            os.environ["TZ"] = _TZS[int(tz)]
+            real_time.tzset()
+            try:
+                return real_parse_date(str(s))
+            finally:
+                if old is None:
+                    del os.environ["TZ"]
+                else:
+                    os.environ["TZ"] = old
+                real_time.tzset()
+
+    class Crawler(expirer.LeaseCheckingCrawler):
+        def setServiceParent(self, parent):
+            self.harness_parent = parent
+
+    class SS(server_mod.StorageServer):
+        LeaseCheckerClass = Crawler
+
+        def _clean_incomplete(self):
+            pass
+
+        def add_bucket_counter(self):
+            pass
+
+        def setServiceParent(self, parent):
+            self.harness_parent = parent
+
+    def no_service(name):
+        raise KeyError(name)
+    fake = NS(config=cfg, get_config=cfg.get_config, getServiceNamed=no_service, STOREDIR="storage",
+              nodeid=b"n" * 20, stats_provider=None)
+    saved = (client_mod.StorageServer, client_mod.parse_date, server_mod.fileutil, server_mod.log)
+    client_mod.StorageServer = SS
+    client_mod.parse_date = parse_date
+    server_mod.fileutil = NS(make_dirs=lambda d, mode=0o777: None)
+    server_mod.log = _NullLog()
+    try:
+        ss = client_mod._Client.get_anonymous_storage_server(fake)
+    finally:
+        (client_mod.StorageServer, client_mod.parse_date, server_mod.fileutil, server_mod.log) = saved
+    c = ss.lease_checker
+    if c.cutoff_date != CUTOFF_UTC:
+        return "expire.cutoff_date = %s became %r seconds (UTC midnight is %d) with TZ=%s" % (CUTOFF_DAY, c.cutoff_date, CUTOFF_UTC, _TZS[tz])
+    seq = [now, now + d1]
+    CLOCK.set(seq)
+    c.stat = lambda fn: NS(st_size=10, st_blocks=1)
+    c.add_lease_age_to_histogram = lambda age: None
+    sf = _mk_share(mutable, [e1], 10)
+    saved_g = expirer.get_share_file
+    expirer.get_share_file = lambda fn: sf
+    try:
+        c.process_share("share-file")
+    finally:
+        expirer.get_share_file = saved_g
+    if sf.bad:
+        return sf.bad
+    if sf.deleted != (e1 - D31 < CUTOFF_UTC):
+        return "share %s although its lease was last renewed %s midnight UTC of the cutoff day" % (
+            ("deleted", "after") if sf.deleted else ("kept", "before"))
     return True
